@@ -72,13 +72,40 @@ class SRegistry(E.RBQLTableRegistry):
         return SIter(self.table, None, alias, self.sched, self.tid)
 
 
+class FromRegistry(E.RBQLTableRegistry):
+    """a query that NAMES its input (select ... FROM T ..., the IPython-magic style): table T is the input, B the join table"""
+    def __init__(self, q, sched, tid):
+        self.q, self.sched, self.tid = q, sched, tid
+        self.input_iterator = None
+
+    def get_iterator_by_table_id(self, table_id, alias):
+        if table_id == 'T':
+            self.input_iterator = SIter([list(r) for r in self.q['A']], self.q.get('hdrA'), alias, self.sched, self.tid)
+            return self.input_iterator
+        if table_id.lower() == 'b' and self.q.get('B') is not None:
+            return SIter([list(r) for r in self.q['B']], None, alias, self.sched, self.tid)
+        return None
+
+
+class NoSched:
+    def point(self, tid):
+        pass
+
+    def finish_thread(self, tid):
+        pass
+
+
 def run_one(q, sched, tid, out):
     it = SIter([list(r) for r in q['A']], q.get('hdrA'), 'a', sched, tid)
     wr = SWriter(sched, tid)
     reg = None if q.get('B') is None else SRegistry([list(r) for r in q['B']], sched, tid)
     err = None
+    if q.get('from'):
+        reg = FromRegistry(q, sched, tid)
     try:
-        rbql.query(q['q'], it, wr, [], reg)
+        rbql.query(q['q'], None if q.get('from') else it, wr, [], reg)
+        if q.get('from'):
+            it = reg.input_iterator
     except Exception as e:
         err = EN.canon_error(e)
     finally:
@@ -100,6 +127,11 @@ def run_inter(c):
 def run_seq(c):
     res = []
     for q in c['queries']:
+        if q.get('from'):
+            out = [None]
+            run_one(q, NoSched(), 0, out)
+            res.append(out[0])
+            continue
         r = EN.run_case(dict(q, fail_at=None))
         res.append({'events': r['events'], 'error': r['error'], 'pulls': r['pulls']})
     return {'results': res}
